@@ -182,8 +182,9 @@ func (cfg *config) useProxy(addr string) bool {
 // useProxyHostPort reports whether requests to host and port should
 // use a proxy, according to the NO_PROXY or no_proxy environment variable.
 func (cfg *config) useProxyHostPort(host, port string) bool {
-	// Host names are case-insensitive.
-	addr := strings.ToLower(strings.TrimSpace(host))
+	// Host names are case-insensitive, and "example.com." is the fully
+	// qualified spelling of "example.com".
+	addr := strings.TrimSuffix(strings.ToLower(strings.TrimSpace(host)), ".")
 	if addr == "localhost" {
 		return false
 	}
@@ -256,6 +257,8 @@ func (c *config) init() {
 			continue
 		}
 
+		// domain.com. is the fully qualified spelling of domain.com
+		phost = strings.TrimSuffix(phost, ".")
 		if len(phost) == 0 {
 			// There is no host part, likely the entry is malformed; ignore.
 			continue
